@@ -263,6 +263,9 @@ fn c02_walk(idx: usize, ctx: &Ctx, rpt: &mut Report) {
         Ok(g) => g,
         Err(_) => return,
     };
+    if !spec.raw.is_empty() {
+        rpt.bucket("trees:with-names-that-are-not-utf8");
+    }
     let _built = match BuiltTree::build(&cont, &spec) {
         Ok(b) => b,
         Err(e) => {
@@ -459,6 +462,9 @@ fn c03_walk(idx: usize, ctx: &Ctx, rpt: &mut Report) {
         },
         None => None,
     };
+    if !spec.raw.is_empty() {
+        rpt.bucket("trees:with-names-that-are-not-utf8");
+    }
     let _built = match BuiltTree::build(&cont, &spec) {
         Ok(b) => b,
         Err(_) => return,
@@ -722,6 +728,9 @@ fn c13(idx: usize, ctx: &Ctx, rpt: &mut Report) {
         },
         None => None,
     };
+    if !case.spec.raw.is_empty() {
+        rpt.bucket("trees:with-names-that-are-not-utf8");
+    }
     let _built = match BuiltTree::build(&cont, &case.spec) {
         Ok(b) => b,
         Err(_) => return,
@@ -906,6 +915,9 @@ fn c16(idx: usize, ctx: &Ctx, rpt: &mut Report) {
         },
         None => None,
     };
+    if !case.spec.raw.is_empty() {
+        rpt.bucket("trees:with-names-that-are-not-utf8");
+    }
     let _built = match BuiltTree::build(&cont, &case.spec) {
         Ok(b) => b,
         Err(_) => return,
@@ -1090,6 +1102,9 @@ fn c14(idx: usize, ctx: &Ctx, rpt: &mut Report) {
         Ok(g) => g,
         Err(_) => return,
     };
+    if !spec.raw.is_empty() {
+        rpt.bucket("trees:with-names-that-are-not-utf8");
+    }
     let _built = match BuiltTree::build(&cont, &spec) {
         Ok(b) => b,
         Err(_) => return,
@@ -1210,6 +1225,9 @@ fn c15(idx: usize, ctx: &Ctx, rpt: &mut Report) {
             Err(_) => return,
         }
     };
+    if !spec.raw.is_empty() {
+        rpt.bucket("trees:with-names-that-are-not-utf8");
+    }
     let _built = match BuiltTree::build(&cont, &spec) {
         Ok(b) => b,
         Err(_) => return,
@@ -1469,6 +1487,9 @@ fn c20(idx: usize, ctx: &Ctx, rpt: &mut Report, enumerated: usize) {
     let cont = container(ctx, idx);
     let root = cont.join("p").join("q").join("root");
     ctx.begin(idx, &format!("fault walk {} follow={} stack={}", faults_desc, follow, stack_kind));
+    if !spec.raw.is_empty() {
+        rpt.bucket("trees:with-names-that-are-not-utf8");
+    }
     let _built = match BuiltTree::build(&cont, &spec) {
         Ok(b) => b,
         Err(e) => {
